@@ -18,6 +18,8 @@ import (
 
 	"github.com/gcash/bchutil"
 
+	"verif/harness/cmd/c16/srclits"
+	"verif/harness/cmd/c17/prodrun"
 	"verif/harness/internal/vh"
 )
 
@@ -899,7 +901,116 @@ func main() {
 		mulF64(a, f, corrOn && i%T(40, 600) == 0)
 	}
 
+	dictionaryFamily()
+	runProd(T(1, 6), nil)
+
 	finish()
+}
+
+// ---------- dictionary family (round 3) ----------
+// Numbers that occur as literals in the source of the package as it is now (harvested with
+// go/parser from every non-test file, whatever its build constraints) and memorable numbers
+// (digit runs, repdigits, hexspeak, powers of two and ten): as the half-way point k + 0.5 seen by
+// the rounding (through round, NewAmount and MulF64), as the amount, as the multiplier.
+func dictionary() (ints []int64, floats []float64) {
+	d := srclits.Harvest(false, srclits.RepoDir())
+	rep.Extra["dictionary"] = map[string]interface{}{"files": d.Files, "source_literals": len(d.Raw), "float_literals": len(d.Floats)}
+	return d.Numbers(600), d.Floats
+}
+
+func tiesAt(k int64) {
+	for _, s := range []int64{1, -1} {
+		if k < 1<<52 {
+			mulF64(s*(2*k+1), 0.5, false)
+			mulF64(2*k+1, float64(s)*0.5, false)
+		}
+		mulF64(s, float64(k)+0.5, false)
+		roundHook(float64(s)*(float64(k)+0.5), false)
+		for _, f := range halfIntegerFloats(k, 1) {
+			newAmount(float64(s)*f, false)
+		}
+	}
+	rep.Histogram["dictionary_tie"]++
+}
+
+func dictionaryFamily() {
+	ints, floats := dictionary()
+	for _, v := range ints {
+		if v < 0 {
+			v = -v
+		}
+		if v < 0 || v >= 1<<53 {
+			continue
+		}
+		tiesAt(v)
+		if v > 0 {
+			tiesAt(v - 1)
+		}
+		for _, f := range []float64{0.5, 1.5, 0.25, 0.75, 0.1, 1e-8, 2.5} {
+			mulF64(v, f, false)
+			mulF64(-v, f, false)
+		}
+		newAmount(float64(v)/1e8, false)
+		newAmount(float64(v), false)
+		if v <= capSat {
+			for _, u := range []int{-8, -6, -3, 0, 3, 6} {
+				toUnit(v, u, false)
+				format(v, u, 0)
+				format(-v, u, 0)
+			}
+			roundTrip(v, false, true)
+			roundTrip(-v, false, true)
+		}
+	}
+	for _, f := range floats {
+		if !isFinite(f) {
+			continue
+		}
+		roundHook(f, false)
+		mulF64(1, f, false)
+		mulF64(-1, f, false)
+		mulF64(2, f/2, false)
+		for _, g := range append(ulps(f/1e8, 1), f*1e-8, f) {
+			newAmount(g, false)
+		}
+		rep.Histogram["dictionary_float"]++
+	}
+}
+
+// ---------- the build that ships ----------
+// runProd builds harness/cmd/c17/prod WITHOUT -tags verif in a scratch module (neutral module
+// path, neutral binary name, no VERIF_* environment) and merges what it found.  This harness is
+// built with the tag, so a file pair `//go:build verif` / `//go:build !verif` would show it another
+// amount.go than the one every user compiles.
+func runProd(scale int, one map[string]interface{}) {
+	ints, floats := dictionary()
+	in := map[string]interface{}{"ints": ints}
+	fb := make([]uint64, len(floats))
+	for i, f := range floats {
+		fb[i] = bitsOf(f)
+	}
+	in["float_bits"] = fb
+	args := []string{"-seed", fmt.Sprint(cfg.Seed), "-scale", fmt.Sprint(scale)}
+	if one != nil {
+		in["replay"] = one
+		args = append(args, "-replay")
+	}
+	stdin, _ := json.Marshal(in)
+	o, err := prodrun.Run(cfg.Out, "c17", "cmd/c17/prod", stdin, args...)
+	if err != nil {
+		rep.Extra["production_build"] = "NOT RUN: " + err.Error()
+		rep.Histogram["production_build/not_run"]++
+		return
+	}
+	rep.Extra["production_build"] = map[string]interface{}{"main_module": o.MainPath, "build_tags": o.Tags, "executions": o.Executions, "build_seconds": o.BuildSecs, "run_seconds": o.RunSecs}
+	rep.Evaluations += o.Executions
+	rep.Histogram["production_build/executions"] += o.Executions
+	for k, v := range o.Histogram {
+		rep.Histogram["production_build/"+k] += v
+	}
+	for _, v := range o.Violations {
+		rep.Violate(v.Key, v.What+" [build without -tags verif]", v.Replay)
+	}
 }
 
 func pow10i(j int) int64 {
@@ -942,6 +1053,10 @@ func replay() {
 		return v
 	}
 	op, _ := in["op"].(string)
+	if pb, _ := in["prod_build"].(bool); pb {
+		runProd(1, in)
+		return
+	}
 	switch op {
 	case "newamount":
 		newAmount(math.Float64frombits(unum("bits")), true)
